@@ -338,6 +338,38 @@ func (x *Ctx) judgeFrom(in string, base types.Object, baseDump map[string]interf
 	if want := len(wantKeys); len(errs) != want {
 		x.Violate(fmt.Sprintf("from/diag-count/%s/%s", label, cls), in, fmt.Sprintf("%d error diagnostics, want %d", len(errs), want), detail())
 	}
+	// custom-type fields do not show in the dumps: a well-formed custom attribute at the root level is
+	// "still copied" when its CopyFrom<S> hook is called with the address of the field
+	mv := reflect.ValueOf(q).Elem()
+	for _, a := range x.Root.Live() {
+		if a.Kind != spec.KCustom || a.Oneof != nil {
+			continue
+		}
+		if av, ok := obj.Attrs[a.Attr]; !ok || av == nil {
+			continue
+		}
+		faulted := false
+		for _, f := range fs {
+			if f.pos.Attr == a || (len(f.pos.steps) == 0 && f.pos.Attr.Attr == a.Attr) {
+				faulted = true
+			}
+		}
+		fv, st := getField(mv, a)
+		if faulted || st != fOK || !fv.CanAddr() {
+			continue
+		}
+		x.Count("from-custom-attributes-judged", 1)
+		called := false
+		for _, c := range out.Hooks {
+			if c.Hook == "CopyFrom" && c.Suffix == a.CustomSuffix && c.Ptr != nil && reflect.ValueOf(c.Ptr).Kind() == reflect.Ptr && reflect.ValueOf(c.Ptr).Pointer() == fv.Addr().Pointer() {
+				called = true
+			}
+		}
+		if !called {
+			x.Violate(fmt.Sprintf("from/collateral-custom/%s", label), in, fmt.Sprintf("the well-formed custom-type attribute %s was not handed to CopyFrom%s", a.Path, a.CustomSuffix), detail())
+			break
+		}
+	}
 	// every field whose attribute is not under a fault equals the unfaulted result
 	got := x.DumpStruct(q, dumpOpt{NF: true})
 	for _, d := range DiffPaths(baseDump, got) {
